@@ -73,15 +73,21 @@ class CCodeMapper(SimplifyingSortingStringifyMapper):
 
     def __init__(self, reverse=True,
             cse_prefix="_cse", complex_constant_base_type="double",
-            cse_name_list=None):
+            cse_name_list=None, cse_to_name=None):
         if cse_name_list is None:
             cse_name_list = []
         super().__init__(reverse)
         self.cse_prefix = cse_prefix
 
-        self.cse_to_name = {cse: name for name, cse in cse_name_list}
-        self.cse_names = {cse for name, cse in cse_name_list}
+        # cse_name_list holds (name, code string) pairs for the assignments
+        # generated so far. Pairs supplied by the caller (see
+        # copy_with_mapped_cses) may carry the subexpression itself instead.
         self.cse_name_list = cse_name_list[:]
+        self.cse_names = {name for name, _ in cse_name_list}
+        self.cse_to_name = {} if cse_to_name is None else dict(cse_to_name)
+        for name, cse in cse_name_list:
+            if not isinstance(cse, str):
+                self.cse_to_name[cse] = name
 
         self.complex_constant_base_type = complex_constant_base_type
 
@@ -90,7 +96,7 @@ class CCodeMapper(SimplifyingSortingStringifyMapper):
             cse_name_list = self.cse_name_list
         return CCodeMapper(self.reverse,
                 self.cse_prefix, self.complex_constant_base_type,
-                cse_name_list)
+                cse_name_list, self.cse_to_name)
 
     def copy_with_mapped_cses(self, cses_and_values):
         return self.copy(self.cse_name_list + cses_and_values)
@@ -222,8 +228,6 @@ class CCodeMapper(SimplifyingSortingStringifyMapper):
             self.cse_name_list.append((cse_name, cse_str))
             self.cse_to_name[expr.child] = cse_name
             self.cse_names.add(cse_name)
-
-            assert len(self.cse_names) == len(self.cse_to_name)
 
         return cse_name
 
